@@ -37,8 +37,7 @@ Proof.
     apply (kron_dense_vec_l R rO rI radd rmul rsub ropp Rth); assumption.
   - rewrite <- (omats_abstract ops), <- (orows_abstract ops) in *.
     apply (kron_linops_vec_l R rO rI radd rmul rsub ropp Rth); auto.
-    rewrite <- (orows_abstract ops) in Hsq. apply squares_abstract in Hsq.
-    unfold squares in *. rewrite map_map in Hsq. simpl in Hsq. rewrite map_map. exact Hsq.
+    apply squares_abstract. assumption.
 Qed.
 
 (* ... and (N,m) arguments *)
@@ -54,8 +53,7 @@ Proof.
     apply (kron_dense_mat_l R rO rI radd rmul rsub ropp Rth ops x m); assumption.
   - rewrite <- (omats_abstract ops), <- (orows_abstract ops) in *.
     apply (kron_linops_mat_l R rO rI radd rmul rsub ropp Rth _ x m); auto.
-    rewrite <- (orows_abstract ops) in Hsq. apply squares_abstract in Hsq.
-    unfold squares in *. rewrite map_map in Hsq. simpl in Hsq. rewrite map_map. exact Hsq.
+    apply squares_abstract. assumption.
 Qed.
 
 End Proofs4.
